@@ -50,7 +50,10 @@ DAC_BVLS::DAC_BVLS(uint tamCode, uint nLevels, std::vector<uint> *levelsIndex,
   this->nLevels = nLevels;
   this->levels = levels;
   this->bS = new BitSequenceRG(*bS, 4);
-  this->levelsIndex = new uint[nLevels];
+  // save() and load() transfer nLevels + 1 entries: the last one is the end
+  // offset of the last level
+  this->levelsIndex = new uint[nLevels + 1];
+  this->levelsIndex[nLevels] = tamCode;
   this->rankLevels = new uint[nLevels];
 
   for (uint i = 0; i < nLevels; i++)
